@@ -290,9 +290,9 @@ theorem getAuth_prop (P : Auth → Prop) (l : List Auth) (p a : Nat) (hl : ∀ x
 /-- **record update, pools unchanged** (withdraw, the record part of reduceInitPos / unRegister / reject) -/
 theorem PosInv_putAuth (b : Book) (y : Auth) (hi : PosInv b)
     (hact : actOf y = actOf (getAuth b.auths y.peer y.addr))
-    (hz : zeroed (getAuth b.auths y.peer y.addr) → zeroed y)
+    (hz : (∀ q ∈ b.pool, q.id = y.peer → q.status = .register) → zeroed (getAuth b.auths y.peer y.addr) → zeroed y)
     (hw : ∀ q ∈ b.pool, q.id = y.peer → q.status = .candidate → y.wcons = 0)
-    (hf : ∀ q ∈ b.prevPool, q.id = y.peer →
+    (hf : ∀ q ∈ b.prevPool, q.status.active = true → q.id = y.peer →
         fC q.owner y = fC q.owner (getAuth b.auths y.peer y.addr) ∧ fD q.owner y = fD q.owner (getAuth b.auths y.peer y.addr)) :
     PosInv { b with auths := putAuth b.auths y } := by
   have sumEq : ∀ (f : Auth → Nat) (p : Nat), f { peer := y.peer, addr := y.addr } = 0 →
@@ -306,7 +306,7 @@ theorem PosInv_putAuth (b : Book) (y : Auth) (hi : PosInv b)
   · intro x hx hreg
     rcases mem_putAuth hx with e | hx'
     · subst e
-      apply hz
+      apply hz hreg
       apply getAuth_prop zeroed
       · intro z hz' hzp; exact hi.zero z hz' (by rw [hzp]; exact hreg)
       · exact zeroed_default _ _
@@ -322,9 +322,9 @@ theorem PosInv_putAuth (b : Book) (y : Auth) (hi : PosInv b)
   · intro q hq ha
     obtain ⟨c, hc, h1, h2, h3, h4, h5⟩ := hi.prev q hq ha
     have eC : asum (fC q.owner) q.id (putAuth b.auths y) = asum (fC q.owner) q.id b.auths :=
-      sumEq _ _ (by simp [fC]) (fun e => (hf q hq e.symm).1)
+      sumEq _ _ (by simp [fC]) (fun e => (hf q hq ha e.symm).1)
     have eD : asum (fD q.owner) q.id (putAuth b.auths y) = asum (fD q.owner) q.id b.auths :=
-      sumEq _ _ (by simp [fD]) (fun e => (hf q hq e.symm).2)
+      sumEq _ _ (by simp [fD]) (fun e => (hf q hq ha e.symm).2)
     refine ⟨c, hc, h1, h2, h3, ?_, ?_⟩
     · intro hs; show asum (fC q.owner) q.id (putAuth b.auths y) ≤ q.totalPos; rw [eC]; exact h4 hs
     · intro hs
@@ -761,7 +761,7 @@ theorem PI_putAuth_unf (b : Book) (pool : List Peer) (auths : List Auth) (p a u 
   obtain ⟨i1, i2⟩ := getAuth_ids auths p a
   have key := PosInv_putAuth { b with pool := pool, auths := auths } { getAuth auths p a with unf := u } hi
     (by show _ = actOf (getAuth auths (getAuth auths p a).peer (getAuth auths p a).addr); rw [i1, i2]; rfl)
-    (by show zeroed (getAuth auths (getAuth auths p a).peer (getAuth auths p a).addr) → _; rw [i1, i2]; exact id)
+    (by intro _; show zeroed (getAuth auths (getAuth auths p a).peer (getAuth auths p a).addr) → _; rw [i1, i2]; exact id)
     (by
       intro q hq hqid hs
       show (getAuth auths p a).wcons = 0
@@ -769,7 +769,7 @@ theorem PI_putAuth_unf (b : Book) (pool : List Peer) (auths : List Auth) (p a u 
       · intro z hz hzp; exact hi.candW q hq hs z hz (by rw [hzp]; exact (hqid.trans i1).symm)
       · rfl)
     (by
-      intro q _ _
+      intro q _ _ _
       show fC q.owner _ = fC q.owner (getAuth auths (getAuth auths p a).peer (getAuth auths p a).addr) ∧
            fD q.owner _ = fD q.owner (getAuth auths (getAuth auths p a).peer (getAuth auths p a).addr)
       rw [i1, i2]; exact ⟨rfl, rfl⟩)
@@ -1350,5 +1350,784 @@ theorem electLoop_spec (b : Book) (k : Nat) (L : List Peer) (pool pool' : List P
       · intro z hz hc
         simp only [ids, List.map_cons, List.mem_cons, not_or] at hz
         exact r3 z hz.2 (frame1 z hz.1 hc)
+
+/-- **epoch change** (`executeCommitDpos`, both versions) -/
+theorem commitPlan_inv (s : St) (b' : Book) (acts : List BankAction) (h : commitPlan s = .ok (b', acts))
+    (hi : PosInv s.book) : PosInv b' := by
+  unfold commitPlan at h
+  simp only at h
+  split at h
+  · cases h
+  · split at h
+    · cases h
+    · rename_i pre post _
+      generalize hacc : quitLoop (decide (s.book.view > OntVerif.Gen.Gov.NEW_VERSION_VIEW)) s.book.gp.penalty s.book.pool
+        { pool := s.book.pool, auths := s.book.auths, attrs := s.book.attrs, peers := [], acts := [] } = acc at h
+      split at h
+      · cases h
+      · split at h
+        · cases h
+        · rename_i pool' auths' he
+          cases h
+          have h0 : QuitOK s.book { pool := s.book.pool, auths := s.book.auths, attrs := s.book.attrs, peers := [], acts := [] }
+              s.book.pool := by
+            refine ⟨?_, ?_, ?_, ?_⟩
+            · exact CI_of_PI s.book s.book.pool s.book.auths (PosInv_of_eq _ _ hi rfl rfl rfl)
+            · intro p hp; exact findPeer_of_mem hi.nodup hp
+            · intro q hq; simp at hq
+            · simpa [ids] using hi.nodup
+          obtain ⟨q1, q2⟩ := quitLoop_spec s.book _ s.book.gp.penalty s.book.pool _ h0
+          rw [hacc] at q1 q2
+          have perm := sortPeers_perm acc.peers
+          have hL : ∀ q ∈ sortPeers acc.peers, q.status.active = true ∧ findPeer acc.pool q.id = some q :=
+            fun q hq => q1.peersIn q (perm.mem_iff.1 hq)
+          have hnd : (ids (sortPeers acc.peers)).Nodup := by
+            have h1 : (ids acc.peers).Nodup := by simpa [ids] using q1.nodup
+            exact ((perm.map (fun x : Peer => x.id)).nodup_iff).2 h1
+          obtain ⟨e1, e2, _⟩ := electLoop_spec s.book _ _ _ _ _ _ he q1.ci hL hnd
+          refine ⟨e1.nodup, hi.nodup, e1.zero, e1.total, e1.candW, ?_⟩
+          intro q hq ha
+          have hqL : q ∈ sortPeers acc.peers := perm.mem_iff.2 (q2 q (Or.inr ⟨hq, ha⟩))
+          obtain ⟨c, c1, c2, c3, c4, c5⟩ := e2 q hqL
+          obtain ⟨cm, cid⟩ := findPeer_some_mem c1
+          refine ⟨c, cm, cid, c2, ?_, c4, c5⟩
+          intro e; rw [e] at c3; simp [Status.active] at c3
+
+/-- the owner's own record gets frozen/unfrozen positions out of `InitPos` (reduceInitPos) -/
+theorem PI_owner_record (b : Book) (pool : List Peer) (auths : List Auth) (q : Peer) (p a w w2 u : Nat)
+    (hi : PI b pool auths) (hq : findPeer pool p = some q) (ho : q.owner = a)
+    (hc : q.status = .candidate → w = (getAuth auths p a).wcons)
+    (hr : q.status = .register → w = (getAuth auths p a).wcons ∧ w2 = (getAuth auths p a).wcand) :
+    PI b pool (putAuth auths { getAuth auths p a with wcons := w, wcand := w2, unf := u }) := by
+  obtain ⟨i1, i2⟩ := getAuth_ids auths p a
+  obtain ⟨hqm, hqid⟩ := findPeer_some_mem hq
+  have uniq : ∀ z ∈ pool, z.id = p → z = q := by
+    intro z hz e
+    have := findPeer_of_mem hi.nodup hz; rw [e, hq] at this; cases this; rfl
+  have key := PosInv_putAuth { b with pool := pool, auths := auths }
+    { getAuth auths p a with wcons := w, wcand := w2, unf := u } hi
+    (by show _ = actOf (getAuth auths (getAuth auths p a).peer (getAuth auths p a).addr); rw [i1, i2]; rfl)
+    (by
+      intro hreg
+      show zeroed (getAuth auths (getAuth auths p a).peer (getAuth auths p a).addr) → _
+      rw [i1, i2]
+      have hs := hreg q hqm (hqid.trans i1.symm)
+      obtain ⟨e1, e2⟩ := hr hs
+      intro ⟨z1, z2, z3, z4, z5⟩
+      exact ⟨z1, z2, z3, by show w = 0; rw [e1]; exact z4, by show w2 = 0; rw [e2]; exact z5⟩)
+    (by
+      intro z hz hzid hs
+      have := uniq z hz (hzid.trans i1)
+      subst this
+      show w = 0
+      rw [hc hs]
+      apply getAuth_prop (fun x => x.wcons = 0)
+      · intro x hx hxp; exact hi.candW z hz hs x hx (by rw [hxp, hqid])
+      · rfl)
+    (by
+      intro q0 hq0 ha0 hid0
+      obtain ⟨c, hc', c1, c2, _⟩ := hi.prev q0 hq0 ha0
+      have := uniq c hc' (by rw [c1]; exact hid0.trans i1)
+      subst this
+      show fC q0.owner _ = fC q0.owner (getAuth auths (getAuth auths p a).peer (getAuth auths p a).addr) ∧
+           fD q0.owner _ = fD q0.owner (getAuth auths (getAuth auths p a).peer (getAuth auths p a).addr)
+      rw [i1, i2]
+      have : (getAuth auths p a).addr = q0.owner := by rw [i2, ← c2, ho]
+      simp [fC, fD, this])
+  exact PosInv_of_eq _ _ key rfl rfl rfl
+
+theorem PI_of (b : Book) (hi : PosInv b) : PI b b.pool b.auths := PosInv_of_eq _ _ hi rfl rfl rfl
+
+/-- **every operation preserves the position invariant** -/
+theorem plan_inv (op : Op) (s : St) (b' : Book) (acts : List BankAction) (h : plan op s = .ok (b', acts))
+    (hi : PosInv s.book) : PosInv b' := by
+  have frame : ∀ b'' : Book, b''.pool = s.book.pool → b''.prevPool = s.book.prevPool → b''.auths = s.book.auths → PosInv b'' :=
+    fun b'' h1 h2 h3 => PosInv_of_eq _ _ hi h1 h2 h3
+  cases op with
+  | ht n =>
+    simp only [plan] at h; split at h
+    · cases h
+    · cases h; exact frame _ rfl rfl rfl
+  | fee frm n => simp only [plan] at h; cases h; exact hi
+  | reg w p a pos =>
+    simp only [plan] at h
+    split at h; · cases h
+    split at h; · cases h
+    split at h; · cases h
+    split at h; · cases h
+    rename_i hnone
+    have hf : findPeer s.book.pool p = none := by
+      cases hfp : findPeer s.book.pool p with
+      | none => rfl
+      | some q => rw [hfp] at hnone; simp at hnone
+    split at h
+    · split at h; · cases h
+      split at h; · cases h
+      cases h
+      have key := PosInv_register s.book { id := p, owner := a, status := .candidate, initPos := pos, totalPos := 0 } hi hf rfl
+      exact PosInv_of_eq _ _ key rfl rfl rfl
+    · cases h
+      have key := PosInv_register s.book { id := p, owner := a, status := .register, initPos := pos, totalPos := 0 } hi hf rfl
+      exact PosInv_of_eq _ _ key rfl rfl rfl
+  | unreg w p a =>
+    simp only [plan] at h
+    split at h; · cases h
+    split at h; · cases h
+    rename_i q hq
+    split at h; · cases h
+    rename_i hs
+    split at h; · cases h
+    cases h
+    obtain ⟨_, hqid⟩ := findPeer_some_mem hq
+    have hs' : q.status = .register := by simpa using hs
+    have h1 := PI_putAuth_unf s.book s.book.pool s.book.auths p a ((getAuth s.book.auths p a).unf + q.initPos) (PI_of _ hi)
+    have key := PosInv_erase_register _ q h1 (by show findPeer s.book.pool q.id = some q; rw [hqid]; exact hq) hs'
+    rw [hqid] at key
+    exact PosInv_of_eq _ _ key rfl rfl rfl
+  | appr w p =>
+    simp only [plan] at h
+    split at h; · cases h
+    split at h; · cases h
+    split at h; · cases h
+    rename_i q hq
+    split at h; · cases h
+    split at h; · cases h
+    rename_i hs
+    cases h
+    obtain ⟨_, hqid⟩ := findPeer_some_mem hq
+    have hs' : q.status = .register := by simpa using hs
+    have key := PosInv_approve s.book q hi (by rw [hqid]; exact hq) hs'
+    exact PosInv_of_eq _ _ key rfl rfl rfl
+  | rej w p =>
+    simp only [plan] at h
+    split at h; · cases h
+    split at h; · cases h
+    rename_i q hq
+    split at h; · cases h
+    rename_i hs
+    cases h
+    obtain ⟨_, hqid⟩ := findPeer_some_mem hq
+    have hs' : q.status = .register := by simpa using hs
+    have h1 := PI_putAuth_unf s.book s.book.pool s.book.auths p q.owner ((getAuth s.book.auths p q.owner).unf + q.initPos) (PI_of _ hi)
+    have key := PosInv_erase_register _ q h1 (by show findPeer s.book.pool q.id = some q; rw [hqid]; exact hq) hs'
+    rw [hqid] at key
+    exact PosInv_of_eq _ _ key rfl rfl rfl
+  | black w ps =>
+    simp only [plan] at h
+    split at h; · cases h
+    split at h; · cases h
+    rename_i pool bl commit hb
+    have h1 : PosInv { s.book with pool := pool, black := bl } :=
+      PosInv_of_eq _ _ (blackLoop_inv s.book ps _ _ _ _ _ _ s.book.auths hb (PI_of _ hi)) rfl rfl rfl
+    split at h
+    · exact commitPlan_inv _ _ _ h h1
+    · cases h; exact h1
+  | white w p =>
+    simp only [plan] at h
+    split at h; · cases h
+    split at h; · cases h
+    cases h; exact frame _ rfl rfl rfl
+  | quit w p a =>
+    simp only [plan] at h
+    split at h; · cases h
+    split at h; · cases h
+    rename_i q hq
+    split at h; · cases h
+    split at h; · cases h
+    split at h; · cases h
+    cases h
+    obtain ⟨_, hqid⟩ := findPeer_some_mem hq
+    have key := PosInv_setPeer_same s.book q
+      { q with status := if q.status == .consensus then .quitConsensus else .quiting } hi
+      (by show findPeer s.book.pool q.id = some q; rw [hqid]; exact hq) rfl rfl
+      (by intro e; simp only at e; split at e <;> cases e)
+      (by intro e; simp only at e; split at e <;> cases e)
+      (by intro e; simp only at e; split at e <;> cases e)
+    exact PosInv_of_eq _ _ key rfl rfl rfl
+  | auth w a items =>
+    simp only [plan] at h
+    split at h; · cases h
+    split at h; · cases h
+    rename_i pool auths total hl
+    cases h
+    exact PosInv_of_eq _ _ (authLoop_inv s.book a items _ _ _ _ _ _ hl (PI_of _ hi)) rfl rfl rfl
+  | unauth w a items =>
+    simp only [plan] at h
+    split at h; · cases h
+    split at h; · cases h
+    rename_i pool auths hl
+    cases h
+    exact PosInv_of_eq _ _ (unauthLoop_inv s.book a items _ _ _ _ hl (PI_of _ hi)) rfl rfl rfl
+  | wd w a items =>
+    simp only [plan] at h
+    split at h; · cases h
+    split at h; · cases h
+    rename_i auths total hl
+    cases h
+    exact PosInv_of_eq _ _ (wdLoop_inv s.book _ a items s.book.pool _ _ _ _ hl (PI_of _ hi)) rfl rfl rfl
+  | commit w =>
+    simp only [plan] at h
+    split at h; · cases h
+    exact commitPlan_inv s b' acts h hi
+  | addpos w p a n =>
+    simp only [plan] at h
+    split at h; · cases h
+    split at h; · cases h
+    split at h; · cases h
+    split at h; · cases h
+    rename_i q hq
+    split at h; · cases h
+    split at h; · cases h
+    cases h
+    obtain ⟨_, hqid⟩ := findPeer_some_mem hq
+    have key := PosInv_setPeer_same s.book q { q with initPos := q.initPos + n } hi
+      (by show findPeer s.book.pool q.id = some q; rw [hqid]; exact hq) rfl rfl id id id
+    exact PosInv_of_eq _ _ key rfl rfl rfl
+  | redpos w p a n =>
+    simp only [plan] at h
+    split at h; · cases h
+    split at h; · cases h
+    split at h; · cases h
+    split at h; · cases h
+    rename_i q hq
+    split at h; · cases h
+    rename_i hown
+    split at h; · cases h
+    split at h; · cases h
+    split at h; · cases h
+    split at h; · cases h
+    split at h; · cases h
+    obtain ⟨_, hqid⟩ := findPeer_some_mem hq
+    have hown' : q.owner = a := by simpa using hown
+    have hpool : PosInv { s.book with pool := setPeer s.book.pool { q with initPos := q.initPos - n } } :=
+      PosInv_setPeer_same s.book q { q with initPos := q.initPos - n } hi
+        (by show findPeer s.book.pool q.id = some q; rw [hqid]; exact hq) rfl rfl id id id
+    have hq2 : findPeer (setPeer s.book.pool { q with initPos := q.initPos - n }) p = some { q with initPos := q.initPos - n } := by
+      have := findPeer_setPeer_self s.book.pool { q with initPos := q.initPos - n }
+      rw [← hqid]; exact this
+    have rec_ : ∀ w' w2 u, (q.status = .candidate → w' = (getAuth s.book.auths p a).wcons) →
+        (q.status = .register → w' = (getAuth s.book.auths p a).wcons ∧ w2 = (getAuth s.book.auths p a).wcand) →
+        PosInv { s.book with pool := setPeer s.book.pool { q with initPos := q.initPos - n },
+                             auths := putAuth s.book.auths { getAuth s.book.auths p a with wcons := w', wcand := w2, unf := u } } := by
+      intro w' w2 u c1 c2
+      have := PI_owner_record s.book _ s.book.auths { q with initPos := q.initPos - n } p a w' w2 u
+        (PosInv_of_eq _ _ hpool rfl rfl rfl) hq2 hown' c1 c2
+      exact PosInv_of_eq _ _ this rfl rfl rfl
+    split at h
+    · rename_i hs
+      cases h
+      exact PosInv_of_eq _ _ (rec_ ((getAuth s.book.auths p a).wcons + n) (getAuth s.book.auths p a).wcand (getAuth s.book.auths p a).unf
+        (by intro e; rw [e] at hs; cases hs) (by intro e; rw [e] at hs; cases hs)) rfl rfl rfl
+    · rename_i hs
+      cases h
+      exact PosInv_of_eq _ _ (rec_ (getAuth s.book.auths p a).wcons ((getAuth s.book.auths p a).wcand + n) (getAuth s.book.auths p a).unf
+        (fun _ => rfl) (by intro e; rw [e] at hs; cases hs)) rfl rfl rfl
+    · rename_i hs
+      cases h
+      exact PosInv_of_eq _ _ (rec_ (getAuth s.book.auths p a).wcons (getAuth s.book.auths p a).wcand ((getAuth s.book.auths p a).unf + n)
+        (fun _ => rfl) (fun _ => ⟨rfl, rfl⟩)) rfl rfl rfl
+    · cases h
+  | maxauth w p a n =>
+    simp only [plan] at h
+    split at h; · cases h
+    split at h; · cases h
+    split at h; · cases h
+    split at h; · cases h
+    split at h; · cases h
+    cases h; exact frame _ rfl rfl rfl
+  | cost w p a pc =>
+    simp only [plan] at h
+    split at h; · cases h
+    split at h; · cases h
+    split at h; · cases h
+    split at h; · cases h
+    split at h; · cases h
+    cases h; exact frame _ rfl rfl rfl
+  | feepct w p a pc sc =>
+    simp only [plan] at h
+    split at h; · cases h
+    split at h; · cases h
+    split at h; · cases h
+    split at h; · cases h
+    split at h; · cases h
+    split at h; · cases h
+    cases h; exact frame _ rfl rfl rfl
+  | wfee w a =>
+    simp only [plan] at h
+    split at h; · cases h
+    split at h; · cases h
+    cases h; exact hi
+  | gp w g =>
+    simp only [plan] at h
+    split at h; · cases h
+    split at h; · cases h
+    split at h; · cases h
+    split at h; · cases h
+    split at h; · cases h
+    split at h; · cases h
+    split at h; · cases h
+    split at h; · cases h
+    cases h; exact frame _ rfl rfl rfl
+  | gp2 w g =>
+    simp only [plan] at h
+    split at h; · cases h
+    split at h; · cases h
+    split at h; · cases h
+    split at h; · cases h
+    cases h; exact frame _ rfl rfl rfl
+  | promise w p n =>
+    simp only [plan] at h
+    split at h; · cases h
+    split at h; · cases h
+    cases h; exact frame _ rfl rfl rfl
+  | gas w a =>
+    simp only [plan] at h
+    split at h; · cases h
+    cases h; exact frame _ rfl rfl rfl
+  | tpen w p a =>
+    simp only [plan] at h
+    split at h; · cases h
+    cases h; exact hi
+  | wong w a =>
+    simp only [plan] at h
+    split at h; · cases h
+    cases h; exact hi
+
+/-! ### parameters, attributes and the number of candidates -/
+
+def attrOK (x : Attr) : Prop := x.t2pc ≤ 100 ∧ x.t1pc ≤ 100 ∧ x.tpc ≤ 100 ∧ x.t2sc ≤ 101 ∧ x.t1sc ≤ 101 ∧ x.tsc ≤ 101
+
+structure AuxInv (b : Book) : Prop where
+  sound : b.soundGp = true
+  ab : b.gp.A + b.gp.B ≤ 100
+  dapp : ∀ g, b.gp2 = some g → g.dappFee ≤ 100
+  attrs : ∀ x ∈ b.attrs, attrOK x
+  kpos : 0 < b.K
+  kprev : b.K ≤ (b.prevPool.filter (fun p => p.status.active)).length
+
+theorem AuxInv_of_eq (b b' : Book) (h : AuxInv b) (h1 : b'.soundGp = b.soundGp) (h2 : b'.gp = b.gp) (h3 : b'.gp2 = b.gp2)
+    (h4 : b'.attrs = b.attrs) (h5 : b'.K = b.K) (h6 : b'.prevPool = b.prevPool) : AuxInv b' :=
+  ⟨by rw [h1]; exact h.sound, by rw [h2]; exact h.ab, by rw [h3]; exact h.dapp, by rw [h4]; exact h.attrs,
+   by rw [h5]; exact h.kpos, by rw [h5, h6]; exact h.kprev⟩
+
+theorem mem_putAttr {l : List Attr} {y x : Attr} (h : x ∈ putAttr l y) : x = y ∨ x ∈ l := by
+  induction l with
+  | nil => simp [putAttr] at h; exact Or.inl h
+  | cons z r ih =>
+    simp only [putAttr] at h
+    split at h
+    · simp only [List.mem_cons] at h
+      rcases h with e | h
+      · exact Or.inl e
+      · exact Or.inr (by simp [h])
+    · simp only [List.mem_cons] at h
+      rcases h with e | h
+      · exact Or.inr (by simp [e])
+      · rcases ih h with e | h'
+        · exact Or.inl e
+        · exact Or.inr (by simp [h'])
+
+theorem getAttr_ok (l : List Attr) (p : Nat) (h : ∀ x ∈ l, attrOK x) : attrOK (getAttr l p) := by
+  induction l with
+  | nil => simp [getAttr, attrOK, OntVerif.Gen.Gov.DEFAULT_T2_PEER_COST, OntVerif.Gen.Gov.DEFAULT_T1_PEER_COST,
+      OntVerif.Gen.Gov.DEFAULT_T_PEER_COST]
+  | cons z r ih =>
+    simp only [getAttr]
+    split
+    · exact h z (by simp)
+    · exact ih (fun x hx => h x (by simp [hx]))
+
+theorem putAttr_ok (l : List Attr) (y : Attr) (h : ∀ x ∈ l, attrOK x) (hy : attrOK y) : ∀ x ∈ putAttr l y, attrOK x := by
+  intro x hx
+  rcases mem_putAttr hx with e | hx'
+  · rw [e]; exact hy
+  · exact h x hx'
+
+theorem quitLoop_attrs (rot : Bool) (pen : Nat) (todo : List Peer) (acc : QuitAcc) (h : ∀ x ∈ acc.attrs, attrOK x) :
+    ∀ x ∈ (quitLoop rot pen todo acc).attrs, attrOK x := by
+  induction todo generalizing acc with
+  | nil => exact h
+  | cons p r ih =>
+    have h' : ∀ x ∈ (if rot then
+        putAttr acc.attrs { getAttr acc.attrs p.id with tpc := (getAttr acc.attrs p.id).t1pc, t1pc := (getAttr acc.attrs p.id).t2pc,
+                                                           tsc := (getAttr acc.attrs p.id).t1sc, t1sc := (getAttr acc.attrs p.id).t2sc }
+        else acc.attrs), attrOK x := by
+      split
+      · apply putAttr_ok _ _ h
+        obtain ⟨a1, a2, a3, a4, a5, a6⟩ := getAttr_ok acc.attrs p.id h
+        exact ⟨a1, a1, a2, a4, a4, a5⟩
+      · exact h
+    simp only [quitLoop]
+    cases p.status <;> simp only <;> apply ih <;> exact h'
+
+theorem quitLoop_peers (rot : Bool) (pen : Nat) (todo : List Peer) (acc : QuitAcc) :
+    (quitLoop rot pen todo acc).peers = acc.peers ++ todo.filter (fun p => p.status.active) := by
+  induction todo generalizing acc with
+  | nil => simp [quitLoop]
+  | cons p r ih =>
+    simp only [quitLoop]
+    cases hs : p.status <;> simp only [ih, List.filter_cons, hs, Status.active] <;> simp
+
+theorem commitPlan_aux (s : St) (b' : Book) (acts : List BankAction) (h : commitPlan s = .ok (b', acts))
+    (hi : AuxInv s.book) : AuxInv b' := by
+  unfold commitPlan at h
+  simp only at h
+  split at h
+  · cases h
+  · split at h
+    · cases h
+    · generalize hacc : quitLoop (decide (s.book.view > OntVerif.Gen.Gov.NEW_VERSION_VIEW)) s.book.gp.penalty s.book.pool
+        { pool := s.book.pool, auths := s.book.auths, attrs := s.book.attrs, peers := [], acts := [] } = acc at h
+      split at h
+      · cases h
+      · rename_i hk
+        split at h
+        · cases h
+        · cases h
+          have hp := quitLoop_peers (decide (s.book.view > OntVerif.Gen.Gov.NEW_VERSION_VIEW)) s.book.gp.penalty s.book.pool
+            { pool := s.book.pool, auths := s.book.auths, attrs := s.book.attrs, peers := [], acts := [] }
+          have ha := quitLoop_attrs (decide (s.book.view > OntVerif.Gen.Gov.NEW_VERSION_VIEW)) s.book.gp.penalty s.book.pool
+            { pool := s.book.pool, auths := s.book.auths, attrs := s.book.attrs, peers := [], acts := [] } hi.attrs
+          rw [hacc] at hp ha
+          refine ⟨hi.sound, hi.ab, hi.dapp, ha, hi.kpos, ?_⟩
+          show s.book.K ≤ (s.book.pool.filter (fun p => p.status.active)).length
+          simp only [List.nil_append] at hp
+          rw [← hp]; omega
+
+theorem plan_aux (op : Op) (s : St) (b' : Book) (acts : List BankAction) (h : plan op s = .ok (b', acts))
+    (hi : AuxInv s.book) : AuxInv b' := by
+  have frame : ∀ b'' : Book, b''.soundGp = s.book.soundGp → b''.gp = s.book.gp → b''.gp2 = s.book.gp2 →
+      b''.attrs = s.book.attrs → b''.K = s.book.K → b''.prevPool = s.book.prevPool → AuxInv b'' :=
+    fun b'' h1 h2 h3 h4 h5 h6 => AuxInv_of_eq _ _ hi h1 h2 h3 h4 h5 h6
+  have attrUpd : ∀ (y : Attr), attrOK y → AuxInv { s.book with attrs := putAttr s.book.attrs y } :=
+    fun y hy => ⟨hi.sound, hi.ab, hi.dapp, putAttr_ok _ _ hi.attrs hy, hi.kpos, hi.kprev⟩
+  cases op with
+  | ht n =>
+    simp only [plan] at h; split at h
+    · cases h
+    · cases h; exact frame _ rfl rfl rfl rfl rfl rfl
+  | fee frm n => simp only [plan] at h; cases h; exact hi
+  | reg w p a pos =>
+    simp only [plan] at h
+    split at h; · cases h
+    split at h; · cases h
+    split at h; · cases h
+    split at h; · cases h
+    split at h
+    · split at h; · cases h
+      split at h; · cases h
+      cases h; exact frame _ rfl rfl rfl rfl rfl rfl
+    · cases h; exact frame _ rfl rfl rfl rfl rfl rfl
+  | unreg w p a =>
+    simp only [plan] at h
+    split at h; · cases h
+    split at h; · cases h
+    split at h; · cases h
+    split at h; · cases h
+    cases h; exact frame _ rfl rfl rfl rfl rfl rfl
+  | appr w p =>
+    simp only [plan] at h
+    split at h; · cases h
+    split at h; · cases h
+    split at h; · cases h
+    split at h; · cases h
+    split at h; · cases h
+    cases h; exact frame _ rfl rfl rfl rfl rfl rfl
+  | rej w p =>
+    simp only [plan] at h
+    split at h; · cases h
+    split at h; · cases h
+    split at h; · cases h
+    cases h; exact frame _ rfl rfl rfl rfl rfl rfl
+  | black w ps =>
+    simp only [plan] at h
+    split at h; · cases h
+    split at h; · cases h
+    rename_i pool bl commit hb
+    have h1 : AuxInv { s.book with pool := pool, black := bl } := frame _ rfl rfl rfl rfl rfl rfl
+    split at h
+    · exact commitPlan_aux _ _ _ h h1
+    · cases h; exact h1
+  | white w p =>
+    simp only [plan] at h
+    split at h; · cases h
+    split at h; · cases h
+    cases h; exact frame _ rfl rfl rfl rfl rfl rfl
+  | quit w p a =>
+    simp only [plan] at h
+    split at h; · cases h
+    split at h; · cases h
+    split at h; · cases h
+    split at h; · cases h
+    split at h; · cases h
+    cases h; exact frame _ rfl rfl rfl rfl rfl rfl
+  | auth w a items =>
+    simp only [plan] at h
+    split at h; · cases h
+    split at h; · cases h
+    cases h; exact frame _ rfl rfl rfl rfl rfl rfl
+  | unauth w a items =>
+    simp only [plan] at h
+    split at h; · cases h
+    split at h; · cases h
+    cases h; exact frame _ rfl rfl rfl rfl rfl rfl
+  | wd w a items =>
+    simp only [plan] at h
+    split at h; · cases h
+    split at h; · cases h
+    cases h; exact frame _ rfl rfl rfl rfl rfl rfl
+  | commit w =>
+    simp only [plan] at h
+    split at h; · cases h
+    exact commitPlan_aux s b' acts h hi
+  | addpos w p a n =>
+    simp only [plan] at h
+    split at h; · cases h
+    split at h; · cases h
+    split at h; · cases h
+    split at h; · cases h
+    split at h; · cases h
+    split at h; · cases h
+    cases h; exact frame _ rfl rfl rfl rfl rfl rfl
+  | redpos w p a n =>
+    simp only [plan] at h
+    split at h; · cases h
+    split at h; · cases h
+    split at h; · cases h
+    split at h; · cases h
+    split at h; · cases h
+    split at h; · cases h
+    split at h; · cases h
+    split at h; · cases h
+    split at h; · cases h
+    split at h; · cases h
+    split at h
+    · cases h; exact frame _ rfl rfl rfl rfl rfl rfl
+    · cases h; exact frame _ rfl rfl rfl rfl rfl rfl
+    · cases h; exact frame _ rfl rfl rfl rfl rfl rfl
+    · cases h
+  | maxauth w p a n =>
+    simp only [plan] at h
+    split at h; · cases h
+    split at h; · cases h
+    split at h; · cases h
+    split at h; · cases h
+    split at h; · cases h
+    cases h
+    exact attrUpd _ (getAttr_ok s.book.attrs p hi.attrs)
+  | cost w p a pc =>
+    simp only [plan] at h
+    split at h; · cases h
+    split at h; · cases h
+    rename_i hpc
+    split at h; · cases h
+    split at h; · cases h
+    split at h; · cases h
+    cases h
+    obtain ⟨a1, a2, a3, a4, a5, a6⟩ := getAttr_ok s.book.attrs p hi.attrs
+    exact attrUpd _ ⟨by show pc ≤ 100; omega, a2, a3, by show 0 ≤ 101; omega, a5, a6⟩
+  | feepct w p a pc sc =>
+    simp only [plan] at h
+    split at h; · cases h
+    split at h; · cases h
+    rename_i hpc
+    split at h; · cases h
+    rename_i hsc
+    split at h; · cases h
+    split at h; · cases h
+    split at h; · cases h
+    cases h
+    obtain ⟨a1, a2, a3, a4, a5, a6⟩ := getAttr_ok s.book.attrs p hi.attrs
+    exact attrUpd _ ⟨by show pc ≤ 100; omega, a2, a3, by show (if sc = 0 then 101 else sc) ≤ 101; split <;> omega, a5, a6⟩
+  | wfee w a =>
+    simp only [plan] at h
+    split at h; · cases h
+    split at h; · cases h
+    cases h; exact hi
+  | gp w g =>
+    simp only [plan] at h
+    split at h; · cases h
+    split at h; · cases h
+    rename_i hbad
+    split at h; · cases h
+    split at h; · cases h
+    split at h; · cases h
+    split at h; · cases h
+    split at h; · cases h
+    split at h; · cases h
+    cases h
+    refine ⟨hi.sound, ?_, hi.dapp, hi.attrs, hi.kpos, hi.kprev⟩
+    show g.A + g.B ≤ 100
+    have hs := hi.sound
+    simp only [gpSumBad, hs, if_true, decide_eq_true_eq] at hbad
+    omega
+  | gp2 w g =>
+    simp only [plan] at h
+    split at h; · cases h
+    split at h; · cases h
+    split at h; · cases h
+    rename_i hbad
+    split at h; · cases h
+    cases h
+    refine ⟨hi.sound, hi.ab, ?_, hi.attrs, hi.kpos, hi.kprev⟩
+    intro g' hg'
+    have : g' = g := by
+      have : some g = some g' := hg'
+      cases this; rfl
+    rw [this]; omega
+  | promise w p n =>
+    simp only [plan] at h
+    split at h; · cases h
+    split at h; · cases h
+    cases h; exact frame _ rfl rfl rfl rfl rfl rfl
+  | gas w a =>
+    simp only [plan] at h
+    split at h; · cases h
+    cases h; exact frame _ rfl rfl rfl rfl rfl rfl
+  | tpen w p a =>
+    simp only [plan] at h
+    split at h; · cases h
+    cases h; exact hi
+  | wong w a =>
+    simp only [plan] at h
+    split at h; · cases h
+    cases h; exact hi
+
+/-! ### from the invariants to `govInv` -/
+
+/-- the sum `candOK` computes for a peer, from the book's records -/
+def vsOf (o : Nat) (uc : Bool) (p : Nat) (l : List Auth) : Nat :=
+  validSum o (validList uc ((authsOfPeer l p).map (fun a => (a.addr, u64 (a.cons + a.wcons), u64 (a.cand + a.wcand)))))
+
+theorem vsOf_cons (o : Nat) (uc : Bool) (p : Nat) (x : Auth) (r : List Auth) :
+    vsOf o uc p (x :: r) =
+      (if x.peer = p then (if x.addr = o then 0 else (if uc then u64 (x.cons + x.wcons) else u64 (x.cand + x.wcand))) else 0)
+        + vsOf o uc p r := by
+  unfold vsOf authsOfPeer validList
+  by_cases hx : x.peer = p
+  · simp [List.filter_cons, hx, validSum]
+  · simp [List.filter_cons, hx]
+
+theorem validSum_le (o : Nat) (uc : Bool) (p : Nat) (l : List Auth) :
+    vsOf o uc p l ≤ asum (if uc then fC o else fD o) p l := by
+  induction l with
+  | nil => simp [vsOf, authsOfPeer, validList, validSum, asum]
+  | cons x r ih =>
+    rw [vsOf_cons]
+    simp only [asum]
+    have h1 : u64 (x.cons + x.wcons) ≤ x.cons + x.wcons := Nat.mod_le _ _
+    have h2 : u64 (x.cand + x.wcand) ≤ x.cand + x.wcand := Nat.mod_le _ _
+    by_cases hx : x.peer = p
+    · by_cases ho : x.addr = o
+      · cases uc <;> simp [hx, ho, fC, fD] <;> simpa using ih
+      · cases uc
+        · simp only [hx, ho, if_true, if_false, fD, Bool.false_eq_true] at ih ⊢; omega
+        · simp only [hx, ho, if_true, if_false, fC] at ih ⊢; omega
+    · simp only [hx, if_false]; omega
+
+/-- resource bounds of a state: they follow from the ONT/ONG supply and the `candidateNum` parameter, not from the
+contract's logic -/
+structure Bounded (b : Book) (bank : Bank) : Prop where
+  stake : ∀ q ∈ b.prevPool, stakeOf q ≤ 10000000000
+  count : (b.prevPool.filter (fun p => p.status.active)).length ≤ 10000
+  fee : bank.splitFee ≤ bank.govOng
+  ong : bank.govOng < two64
+
+theorem govInv_of_inv (b : Book) (bank : Bank) (hp : PosInv b) (ha : AuxInv b) (hb : Bounded b bank) :
+    govInv (splitEnv b bank) = true := by
+  have perm := sortPeers_perm (b.prevPool.filter (fun p => p.status.active))
+  have hlen : (splitEnv b bank).cands.length = (b.prevPool.filter (fun p => p.status.active)).length := by
+    simp only [splitEnv, List.length_map]; exact perm.length_eq
+  have hdapp : (splitEnv b bank).dappFee ≤ 100 := by
+    simp only [splitEnv, Book.gparam2]
+    cases hg : b.gp2 with
+    | none => simp
+    | some g => exact ha.dapp g hg
+  unfold govInv
+  simp only [Bool.and_eq_true, decide_eq_true_eq, List.all_eq_true]
+  refine ⟨⟨⟨⟨⟨⟨⟨?_, ha.ab⟩, hdapp⟩, hb.fee⟩, hb.ong⟩, by rw [hlen]; exact hb.count⟩, by rw [hlen]; exact ha.kprev⟩, ha.kpos⟩
+  intro c hc
+  simp only [splitEnv, List.mem_map] at hc
+  obtain ⟨q, hq, rfl⟩ := hc
+  have hq' := perm.mem_iff.1 hq
+  simp only [List.mem_filter] at hq'
+  obtain ⟨hqm, hact⟩ := hq'
+  obtain ⟨c, hcm, c1, c2, c3, c4, c5⟩ := hp.prev q hqm hact
+  have hfind : findPeer b.pool q.id = some c := by rw [← c1]; exact findPeer_of_mem hp.nodup hcm
+  obtain ⟨a1, a2, a3, a4, a5, a6⟩ := getAttr_ok b.attrs q.id ha.attrs
+  unfold candOK
+  simp only [mkCand, hfind, Option.map_some, Bool.and_eq_true, decide_eq_true_eq]
+  refine ⟨⟨⟨?_, a3⟩, a6⟩, hb.stake q hqm⟩
+  refine Nat.le_trans (validSum_le q.owner _ q.id b.auths) ?_
+  rcases active_cases hact with hs | hs
+  · -- candidate in the settled view
+    by_cases hcs : c.status = .consensus
+    · simp only [hcs, hs]; exact (c5 hs).2 hcs
+    · have : (c.status == Status.consensus) = false := by
+        cases hcc : c.status <;> simp_all
+      simp only [this, hs]; exact (c5 hs).1
+  · simp only [hs]; simpa using c4 hs
+
+theorem exec_inv (op : Op) (s : St) (hp : PosInv s.book) (ha : AuxInv s.book) :
+    PosInv (exec op s).1.book ∧ AuxInv (exec op s).1.book := by
+  unfold exec
+  split
+  · exact ⟨hp, ha⟩
+  · exact ⟨hp, ha⟩
+  · rename_i b' acts hpl
+    split
+    · exact ⟨hp, ha⟩
+    · exact ⟨hp, ha⟩
+    · exact ⟨plan_inv op s b' acts hpl hp, plan_aux op s b' acts hpl ha⟩
+
+theorem run_inv (ops : List Op) (s : St) (hp : PosInv s.book) (ha : AuxInv s.book) :
+    PosInv (run ops s).book ∧ AuxInv (run ops s).book := by
+  induction ops generalizing s with
+  | nil => exact ⟨hp, ha⟩
+  | cons op r ih =>
+    obtain ⟨h1, h2⟩ := exec_inv op s hp ha
+    exact ih _ h1 h2
+
+/-- the genesis state satisfies both invariants (distinct peer ids, at least one peer, repaired `A + B` check) -/
+theorem init_inv (g : Genesis) (hn : (g.peers.map (·.1)).Nodup) (hne : g.peers ≠ []) (b0 : Book)
+    (hb0 : b0 = { initBook g with soundGp := true }) : PosInv b0 ∧ AuxInv b0 := by
+  let pool : List Peer := g.peers.map fun (x : Nat × Nat × Nat) =>
+      ({ id := x.1, owner := x.2.1, status := .consensus, initPos := x.2.2, totalPos := 0 } : Peer)
+  have hids : ids pool = g.peers.map (·.1) := by
+    simp [ids, pool, List.map_map, Function.comp_def]
+  have hall : ∀ q ∈ pool, q.status = .consensus ∧ q.totalPos = 0 := by
+    intro q hq; simp only [pool, List.mem_map] at hq
+    obtain ⟨x, _, rfl⟩ := hq; exact ⟨rfl, rfl⟩
+  have hb1 : b0.pool = pool := by rw [hb0]; rfl
+  have hb2 : b0.prevPool = pool := by rw [hb0]; rfl
+  have hb3 : b0.auths = [] := by rw [hb0]; rfl
+  have hb4 : b0.gp2 = none := by rw [hb0]; rfl
+  have hb5 : b0.attrs = [] := by rw [hb0]; rfl
+  have hb6 : b0.K = g.peers.length := by rw [hb0]; rfl
+  have hb7 : b0.gp.A + b0.gp.B ≤ 100 := by
+    rw [hb0]; show OntVerif.Gen.Gov.INIT_A + OntVerif.Gen.Gov.INIT_B ≤ 100; decide
+  have hb8 : b0.soundGp = true := by rw [hb0]
+  constructor
+  · refine ⟨by rw [hb1, hids]; exact hn, by rw [hb2, hids]; exact hn, ?_, ?_, ?_, ?_⟩
+    · intro x hx; rw [hb3] at hx; simp at hx
+    · intro q hq; rw [hb1] at hq; rw [hb3, (hall q hq).2]; rfl
+    · intro q hq hs; rw [hb1] at hq; rw [(hall q hq).1] at hs; cases hs
+    · intro q hq _
+      rw [hb2] at hq
+      refine ⟨q, ?_, rfl, rfl, ?_, ?_, ?_⟩
+      · rw [hb1]; exact hq
+      · intro e; rw [(hall q hq).1] at e; cases e
+      · intro _; rw [hb3]; simp [asum]
+      · intro hs; rw [(hall q hq).1] at hs; cases hs
+  · refine ⟨hb8, hb7, ?_, ?_, ?_, ?_⟩
+    · intro g' hg'; rw [hb4] at hg'; cases hg'
+    · intro x hx; rw [hb5] at hx; simp at hx
+    · rw [hb6]
+      cases hg : g.peers with
+      | nil => exact absurd hg hne
+      | cons _ _ => simp
+    · rw [hb6, hb2, List.filter_eq_self.2]
+      · simp [pool]
+      · intro q hq; rw [(hall q hq).1]; rfl
 
 end OntVerif.Proofs.GovInv
